@@ -1121,8 +1121,20 @@ class WorkflowConductor(object):
                         )
 
                     # Check if inbound criteria are met. Must use the original route
-                    # to identify the inbound task transitions.
-                    staged_next_task["ready"] = (
+                    # to identify the inbound task transitions. A with items task that is
+                    # still running keeps its staged entry to track the items and it stays
+                    # ready. Otherwise, the remaining items are never returned if the inbound
+                    # criteria is not satisfied again, i.e. an inbound task is being rerun.
+                    next_task_state_entry = self.get_task_state_entry(next_task_id, next_task_route)
+
+                    next_task_in_progress = (
+                        staged_next_task["ready"]
+                        and "items" in staged_next_task
+                        and next_task_state_entry is not None
+                        and next_task_state_entry.get("status") in statuses.ACTIVE_STATUSES
+                    )
+
+                    staged_next_task["ready"] = next_task_in_progress or (
                         self.get_inbound_criteria_status(next_task_id, route)
                         == constants.INBOUND_CRITERIA_SATISFIED
                     )
